@@ -1,8 +1,10 @@
 //! Wall-clock watchdog for CPU-only loops inside the code under test. It is the single place a real clock
 //! is read; it can only add a failure, and the failure is reported through a replay file.
-//! Two kinds of entries: a specific (case, fault) pair being evaluated (C10: `open` on a damaged image, 20 s),
-//! and a whole seeded run (every property, 90 s: a run normally takes milliseconds) which is replayed by
-//! re-running the run function on the same run seed.
+//! What is timed is a single call into the code under test (`World::with`: open, an API call, the read accessors),
+//! which takes milliseconds - never a whole run, whose length depends on the tier and on the load of the machine.
+//! Two kinds of entries say what to report: a specific (case, fault) pair being evaluated (C10: `open` on a damaged
+//! image, 20 s per call), and a seeded run (every property, 60 s per call), which is replayed by re-running the run
+//! function on the same run seed.
 use std::sync::Mutex;
 use std::time::Instant;
 
@@ -16,6 +18,8 @@ enum What {
 
 struct Armed {
     since: Instant,
+    /// start of the call the thread is in (ms since EPOCH, 0 = not inside the code under test)
+    call: std::sync::Arc<std::sync::atomic::AtomicU64>,
     limit_s: u64,
     prop: String,
     what: What,
@@ -25,7 +29,25 @@ static SLOTS: Mutex<Vec<(std::thread::ThreadId, Armed)>> = Mutex::new(Vec::new()
 static STARTED: std::sync::Once = std::sync::Once::new();
 
 pub const LIMIT_S: u64 = 20;
-pub const RUN_LIMIT_S: u64 = 90;
+pub const RUN_LIMIT_S: u64 = 60;
+
+static EPOCH: std::sync::OnceLock<Instant> = std::sync::OnceLock::new();
+thread_local! {
+    static CALL: std::sync::Arc<std::sync::atomic::AtomicU64> = std::sync::Arc::new(std::sync::atomic::AtomicU64::new(0));
+}
+
+fn now_ms() -> u64 {
+    EPOCH.get_or_init(Instant::now).elapsed().as_millis() as u64 + 1
+}
+
+/// The calling thread enters / leaves the code under test.
+pub fn call_enter() {
+    CALL.with(|c| c.store(now_ms(), std::sync::atomic::Ordering::Relaxed));
+}
+
+pub fn call_exit() {
+    CALL.with(|c| c.store(0, std::sync::atomic::Ordering::Relaxed));
+}
 
 fn out_root() -> String {
     std::env::var("VERIF_OUT").ok().filter(|s| !s.is_empty()).or_else(|| std::env::var("VERIF_ROOT").ok()).unwrap_or_else(|| "/verif".to_string())
@@ -37,7 +59,8 @@ fn start() {
             std::thread::sleep(std::time::Duration::from_secs(1));
             let slots = SLOTS.lock().unwrap();
             for (_, a) in slots.iter() {
-                if a.since.elapsed().as_secs() >= a.limit_s {
+                let started = a.call.load(std::sync::atomic::Ordering::Relaxed);
+                if started != 0 && now_ms().saturating_sub(started) >= a.limit_s * 1000 {
                     let root = out_root();
                     let _ = std::fs::create_dir_all(format!("{root}/replays"));
                     let path = format!("{root}/replays/{}-watchdog-{}.json", a.prop, std::process::id());
@@ -72,12 +95,12 @@ fn push(a: Armed) {
 }
 
 pub fn arm(prop: &str, case: &Case, fault: &Fault) {
-    push(Armed { since: Instant::now(), limit_s: LIMIT_S, prop: prop.to_string(), what: What::Case { case: case.clone(), fault: fault.clone() } });
+    push(Armed { since: Instant::now(), call: CALL.with(|c| c.clone()), limit_s: LIMIT_S, prop: prop.to_string(), what: What::Case { case: case.clone(), fault: fault.clone() } });
 }
 
 /// Armed around every seeded run by `check::search` (and by the replay of a hung run).
 pub fn arm_run(prop: &str, run_seed: u64, index: usize, tier: &str) {
-    push(Armed { since: Instant::now(), limit_s: RUN_LIMIT_S, prop: prop.to_string(), what: What::Run { run_seed, index, tier: tier.to_string() } });
+    push(Armed { since: Instant::now(), call: CALL.with(|c| c.clone()), limit_s: RUN_LIMIT_S, prop: prop.to_string(), what: What::Run { run_seed, index, tier: tier.to_string() } });
 }
 
 /// Removes the innermost entry of the calling thread.
